@@ -304,6 +304,52 @@ func (w *world) noteDelivered(vk voteKey, idxs []int) {
 	}
 }
 
+// outOfModel reports whether, in some round of a height >= fromH, validators holding
+// at least one third of the power have had valid signatures for two different targets
+// of the same kind delivered to the node. Tendermint-style consensus (and every
+// statement about what the mirror does with certificates) assumes less than one third
+// equivocates; a history beyond that has no defined correct outcome.
+func (w *world) outOfModel(fromH uint64) (bool, string) {
+	type rk struct {
+		kind string
+		h    uint64
+		r    uint32
+	}
+	w.mu.Lock()
+	seen := map[rk]map[int]int{}
+	for vk, idxs := range w.delivered {
+		if vk.h < fromH {
+			continue
+		}
+		k := rk{vk.kind, vk.h, vk.r}
+		m := seen[k]
+		if m == nil {
+			m = map[int]int{}
+			seen[k] = m
+		}
+		for i := range idxs {
+			m[i]++
+		}
+	}
+	w.mu.Unlock()
+	for k, m := range seen {
+		eq := map[int]struct{}{}
+		for i, n := range m {
+			if n >= 2 {
+				eq[i] = struct{}{}
+			}
+		}
+		if len(eq) == 0 {
+			continue
+		}
+		set := w.set(k.h)
+		if p := set.power(eq); atLeastOneThird(p, set.total) {
+			return true, fmt.Sprintf("%s %d/%d: equivocating power %d of %d", k.kind, k.h, k.r, p, set.total)
+		}
+	}
+	return false, ""
+}
+
 func (w *world) deliveredPower(vk voteKey) uint64 {
 	set := w.set(vk.h)
 	w.mu.Lock()
